@@ -2224,6 +2224,10 @@ func (query *Query) exec() (result any, err error) {
 				return nil, err
 			}
 		}
+		// the window of a one-row sequence: OFFSET 1 or more, or LIMIT 0, leaves nothing
+		if query.offsetDefinition > 0 || query.limitDefinition == 0 {
+			return nil, nil
+		}
 		if len(rs) == 0 {
 			return nil, nil
 		}
